@@ -25,6 +25,7 @@ type Obligation struct {
 	Descr  string
 	Fn     string
 	Props  []string
+	Clause Expr // the contract clause this obligation comes from (for replay)
 }
 
 type epoch struct {
@@ -83,6 +84,9 @@ type VC struct {
 	callOrd    map[ssa.Instruction]int
 	callByName map[string]ssa.Instruction
 	callOrdQ   map[ssa.Instruction]string
+	curClause  Expr
+	curBlock   *ssa.BasicBlock
+	infeasible map[edge]bool
 	implIfaces map[string]*types.Interface
 	mapKeys    map[Term]*mapKeyInfo
 	strLitRev  map[Term]*string
@@ -176,7 +180,7 @@ func (vc *VC) oblige(st *State, kind, tag string, cond Term, descr string) {
 	if cond != "true" {
 		vc.obls = append(vc.obls, &Obligation{
 			Name: vc.key + "#" + name, Kind: kind, Guard: st.pc, Cond: cond, Pos: vc.posString(),
-			NDecl: len(vc.decls), NAxiom: len(vc.axioms), Descr: descr, Fn: vc.key,
+			NDecl: len(vc.decls), NAxiom: len(vc.axioms), Descr: descr, Fn: vc.key, Clause: vc.curClause,
 		})
 	} else {
 		// trivially true obligations are still counted (discharged by construction)
@@ -250,6 +254,9 @@ func (vc *VC) heapSet(st *State, comp, sort string, t Term) {
 }
 
 func (vc *VC) heapHavoc(st *State, comp string) Term {
+	if strings.HasPrefix(comp, "map:") {
+		vc.clobberMaps("")
+	}
 	n := vc.fresh("H." + comp)
 	vc.declare(n, vc.compSort[comp])
 	st.heap[comp] = n
@@ -266,6 +273,7 @@ func (vc *VC) havocAll(st *State) {
 	epochCounter++
 	st.ep = &epoch{id: epochCounter}
 	st.heap = map[string]Term{}
+	vc.clobberMaps("")
 	vc.topHit = true
 	na := vc.fresh("alloc")
 	vc.declare(na, "Int")
